@@ -132,7 +132,7 @@ func (p *Program) genVC(con *Contract, sorts map[string]string) (vc *VC, err err
 			if err != nil {
 				return vc, fmt.Errorf("%s: ensures: %v", e.Pos, err)
 			}
-			vc.oblige(&Obligation{Name: fmt.Sprintf("%s/post[%s]@%s", shortName(fn), clauseLabel(e, i), site), Kind: "post", Props: e.Tags, Func: shortName(fn),
+			vc.oblige(&Obligation{Name: fc.uniq(fmt.Sprintf("%s/post[%s]@%s", shortName(fn), clauseLabel(e, i), site)), Kind: "post", Props: e.Tags, Func: shortName(fn),
 				Guard: ex.state.reach, Goal: t, Desc: e.Src})
 		}
 		if !con.ModAll {
